@@ -232,6 +232,36 @@ type lScriptMap struct {
 	m       sync.Mutex
 	scripts map[string]*lua.FunctionProto
 	lru     tinylru.LRUG[string, *lua.FunctionProto]
+	// source text of the scripts above, for the commands that have to be
+	// logged with the script itself instead of its sha
+	sources map[string]string
+	srclru  tinylru.LRUG[string, string]
+}
+
+// Source returns the text of a cached script.
+func (sm *lScriptMap) Source(key string) (source string, ok bool) {
+	sm.m.Lock()
+	source, ok = sm.sources[key]
+	if !ok {
+		source, ok = sm.srclru.Get(key)
+	}
+	sm.m.Unlock()
+	return source, ok
+}
+
+// PutSource remembers the text of a script stored with Put (lru false) or
+// PutLRU (lru true).
+func (sm *lScriptMap) PutSource(key, source string, lru bool) {
+	sm.m.Lock()
+	if lru {
+		sm.srclru.Set(key, source)
+	} else {
+		if sm.sources == nil {
+			sm.sources = make(map[string]string)
+		}
+		sm.sources[key] = source
+	}
+	sm.m.Unlock()
 }
 
 func (sm *lScriptMap) Get(key string) (script *lua.FunctionProto, ok bool) {
@@ -260,6 +290,8 @@ func (sm *lScriptMap) Flush() {
 	sm.m.Lock()
 	sm.scripts = make(map[string]*lua.FunctionProto)
 	sm.lru.Clear()
+	sm.sources = nil
+	sm.srclru.Clear()
 	sm.m.Unlock()
 }
 
@@ -528,6 +560,7 @@ func (s *Server) cmdEvalUnified(scriptIsSha bool, msg *Message) (res resp.Value,
 			return NOMessage, makeSafeErr(err)
 		}
 		s.luascripts.Put(shaSum, fn.Proto)
+		s.luascripts.PutSource(shaSum, script, false)
 	}
 	luaState.Push(fn)
 	if err := luaState.PCall(0, 1, nil); err != nil {
@@ -576,6 +609,7 @@ func (s *Server) cmdScriptLoad(msg *Message) (resp.Value, error) {
 		return NOMessage, makeSafeErr(err)
 	}
 	s.luascripts.Put(shaSum, fn.Proto)
+	s.luascripts.PutSource(shaSum, script, false)
 
 	switch msg.OutputType {
 	case JSON:
